@@ -68,4 +68,36 @@ theorem flatten_flat_id {α κ : Type} (f : Pt α → κ → Pt α → List (Pt 
     | Z p => simp [flattenCmds, hr]
     | Curve k p => have := h _ (List.mem_cons_self); simp [Cmd.isFlat] at this
 
+theorem countP_map_L {α κ : Type} (vs : List (Pt α)) :
+    (vs.map (Cmd.L : Pt α → Cmd α κ)).countP Cmd.isMove = 0 := by
+  induction vs with
+  | nil => rfl
+  | cons v vs ih => simp [List.countP_cons, Cmd.isMove, ih]
+
+/-- The bridging rule: when the `LineTo(end)` is skipped only in situations in which `Join` regards
+the two points as coincident (`skip a b → eq a b`; in the library both are `Point.Equals`), and `eq`
+is reflexive, the rest of the path always continues the current subpath: no MoveTo is introduced. -/
+theorem replaceCmds_count {α κ : Type} (skip eq : Pt α → Pt α → Bool) (f : Pt α → κ → Pt α → List (Pt α))
+    (hse : ∀ a b, skip a b = true → eq a b = true) (hrefl : ∀ a, eq a a = true) (cs : List (Cmd α κ)) :
+    ∀ cur : Pt α, subpathCount (replaceCmds skip eq f cur cs) = subpathCount cs := by
+  induction cs with
+  | nil => intro cur; simp [replaceCmds, subpathCount]
+  | cons c rest ih =>
+    intro cur
+    cases c with
+    | M p => simp only [replaceCmds, subpathCount, List.countP_cons, Cmd.endp] at *; rw [ih]
+    | L p => simp only [replaceCmds, subpathCount, List.countP_cons, Cmd.endp] at *; rw [ih]
+    | Z p => simp only [replaceCmds, subpathCount, List.countP_cons, Cmd.endp] at *; rw [ih]
+    | Curve k p =>
+      simp only [replaceCmds, subpathCount, List.countP_cons, List.countP_append, Cmd.isMove] at *
+      rw [countP_map_L]
+      by_cases hs : skip ((f cur k p).getLast?.getD cur) p = true
+      · have he := hse _ _ hs
+        simp only [hs, if_true, he, List.countP_nil]
+        rw [ih]; simp
+      · have hs' : skip ((f cur k p).getLast?.getD cur) p = false := by simpa using hs
+        simp only [hs', Bool.false_eq_true, if_false, List.getLast?_append, List.getLast?_singleton,
+          Option.some_or, Option.getD_some, hrefl, if_true, List.countP_nil]
+        rw [ih]; simp
+
 end C03L
